@@ -11,6 +11,14 @@ for d in seeded/*/; do
   ded=$(echo "$r" | grep VIOLATION | grep -vc "bounded")
   bnd=$(echo "$r" | grep VIOLATION | grep -c "bounded")
   echo "$n $p $rc deductive_violations=$ded bounded_violations=$bnd" >> $out
+  python3 - "$d/meta.json" "$rc" "$ded" "$bnd" <<'PY'
+import json, sys
+f, rc, ded, bnd = sys.argv[1:5]
+m = json.load(open(f))
+m["last_run"] = {"exit_codes": rc.strip(), "violation_lines_from_obligations": int(ded), "violation_lines_from_bounded_stand_ins": int(bnd),
+                 "note": "counted over the first lines the check printed (it prints at most a handful per run)"}
+json.dump(m, open(f, "w"), indent=1)
+PY
 done
 for f in seeded_benign/*.diff; do
   n=$(basename $f .diff)
